@@ -48,6 +48,8 @@ def cases(ctx):
             if ctx.mine(i):
                 yield {'kind': 'sampled', 'mode': mode, 'n': per, 'salt': j}
             i += 1
+    if ctx.shard == 1:
+        yield {'kind': 'threads', 'mode': 'normal', 'threads': 6, 'salt': ctx.seed}
     if ctx.shard == 0:
         ctx.exhaustive_subspace('all digit strings of length 0..%d x 3 interpreter modes' % maxlen, total)
         ctx.exhaustive_subspace('all substitutions and adjacent transpositions of all valid numbers with payload length 0..%d'
@@ -169,7 +171,41 @@ def absorb(ctx, dump):
         ctx.sample(s)
 
 
+def judge_threads(ctx, case):
+    """The three functions called from several threads at once: every caller gets the answer for its own number."""
+    import random
+    from ..core import threaded_agreement
+    from ..ref import cards as refcards
+    rng = random.Random(1000 + case['salt'])
+    card = ctx.card
+
+    def verdict(s):
+        try:
+            card.validate_check_digit(s)
+            return 'accepts'
+        except AssertionError:
+            return 'rejects'
+    plans = []
+    for t in range(case['threads']):
+        plan = []
+        for _ in range(10):
+            p = ''.join(rng.choice('0123456789') for _ in range(rng.randint(1, 24)))
+            d = int(refcards.luhn_digit(p))
+            plan.append((lambda x: int(card.calculate_check_digit(x)), (p,), d))
+            plan.append((card.add_check_digit, (p,), p + str(d)))
+            plan.append((verdict, (p + str(d),), 'accepts'))
+            plan.append((verdict, (p + str((d + 1 + rng.randrange(9)) % 10),), 'rejects'))
+        plans.append(plan)
+    bad, alternations = threaded_agreement(plans, rounds=80 if ctx.tier == 'quick' else 800)
+    ctx.case_done(['threads', case['salt']])
+    ctx.count('thread alternations between consecutive Luhn calls', alternations)
+    if bad:
+        ctx.violation('threads:a_caller_got_another_answer[normal]', {'case': case, 'thread': bad[0][0], 'call': bad[0][1], 'got': bad[0][2]})
+
+
 def judge(ctx, case):
+    if case['kind'] == 'threads':
+        return judge_threads(ctx, case)
     mode = case['mode']
     if mode == 'normal':
         run_chunk(ctx, case)
@@ -213,6 +249,8 @@ def canaries(ctx):
 def require(m):
     c = m['counters']
     reasons = []
+    if c.get('thread alternations between consecutive Luhn calls', 0) < 20 and not m['violations']:
+        reasons.append('threaded Luhn calls did not overlap')
     for flag in ('-O', '-OO'):
         if not c.get('child interpreters started with ' + flag):
             reasons.append('no child interpreter ran with ' + flag)
